@@ -135,6 +135,7 @@ func ZZ_C19() {
 		host int
 	}
 	var active []act
+	var spawned *act // an actor made known to the cluster by Cluster.Spawn: kind "b", id "z", on any member
 	ids := []string{"x", "y"}
 	anyKind := func() bool {
 		for i, n := range nodes {
@@ -166,6 +167,14 @@ func ZZ_C19() {
 					}
 				}
 			}
+			{
+				got := n.a.activated["b/z"]
+				if spawned == nil {
+					zzrt.Assert(got == nil, "C19:member-knows-an-actor-that-is-not-active")
+				} else {
+					zzrt.Assert(got != nil && got.Address == spawned.pid.Address && got.ID == spawned.pid.ID, "C19:member-does-not-know-an-active-actor")
+				}
+			}
 			// GetActiveByKind
 			before := len(n.res.Got)
 			n.ze.E.SendWithSender(n.c.agentPID, getActive{kind: "a"}, n.res.Pid)
@@ -178,7 +187,21 @@ func ZZ_C19() {
 	}
 
 	for step := 0; step < K; step++ {
-		switch zzrt.NondetIntn("op", 4) {
+		switch zzrt.NondetIntn("op", 5) {
+		case 4: // Cluster.Spawn on any member, whatever kinds it registered: spawn locally, tell every member
+			i := zzrt.Choose(N)
+			if !inView[i] || spawned != nil {
+				zzrt.Assume(false)
+			}
+			n := nodes[i]
+			pid := n.ze.E.Spawn(func() actor.Receiver { return &zzActivated{n} }, "b", actor.WithID("z"))
+			for _, m := range members() {
+				n.ze.E.Send(m.PID(), &Activation{PID: pid})
+			}
+			drain()
+			zzrt.Quiesce()
+			spawned = &act{"z", pid, i}
+			zzrt.Reach("cluster-spawn")
 		case 0: // activate
 			i := zzrt.Choose(N)
 			if !inView[i] {
@@ -202,6 +225,10 @@ func ZZ_C19() {
 					zzrt.Assert(m.HasKind("a"), "C19:select-offered-a-member-without-the-kind")
 				}
 				picked = d.Members[zzrt.Choose(len(d.Members))]
+				if zzrt.NondetBool("selectReturnsCopy") {
+					// a select function may describe the chosen member by a Member value of its own
+					return &Member{ID: picked.ID, Host: picked.Host, Kinds: picked.Kinds, Region: picked.Region}
+				}
 				return picked
 			})
 			before := len(n.res.Got)
@@ -287,6 +314,10 @@ func ZZ_C19() {
 				}
 			}
 			active = rest
+			if spawned != nil && spawned.host == j {
+				spawned = nil
+				zzrt.Reach("leave-with-cluster-spawned-actor")
+			}
 			snapshot()
 			// it may come back later as a fresh member? no: a left member stays away in this harness
 			_ = j
